@@ -1,10 +1,10 @@
 /-
-  C13: merging / permuting / adding perturbation parameters, mechanised in the concrete model.
-  A map `φ : σ → τ` between parameter sets with finite fibres induces the ring homomorphism `renameHom φ` on block series
-  (coefficient of `m` = sum of the coefficients of all `n` with `mapDomain φ n = m`), for ANY (non-commutative) coefficient ring.
-  The multiplicativity proof follows Mathlib's `MvPowerSeries.renameFun_mul` (private there; `rename` itself is only available for commutative
-  coefficients).  `rename_law`: the outputs for the renamed Hamiltonian are the renamed outputs - identifying two parameters gives at order `m` the sum
-  over `n1 + n2 = m`, a permutation permutes the order indices, an added parameter that does not occur only relabels.
+  C13: merging / permuting / adding perturbation parameters and the substitution lambda -> lambda^p, mechanised in the concrete model.
+  General construction: a map `g` of multi-orders with finite fibres that is additive and sends only 0 to 0 induces the ring homomorphism `pushHom g` on block series
+  (coefficient of `m` = sum of the coefficients over the fibre of `m`), for ANY (non-commutative) coefficient ring; `push_law` carries the outputs of the algorithm along it.
+  Instances: `g = mapDomain f` for a map `f : sigma -> tau` of the parameters (`renameHom`, `rename_law`: identifying two parameters gives at order `m` the sum over
+  `n1 + n2 = m`, a permutation permutes the order indices, an added parameter that does not occur only relabels) and `g n = p • n` (`power_law`: lambda -> lambda^p only relabels orders).
+  The multiplicativity proof follows Mathlib's `MvPowerSeries.renameFun_mul` (private there; `rename` and `expand` themselves exist only for commutative coefficients).
 -/
 import Mathlib.RingTheory.MvPowerSeries.Rename
 import PV.ModelTheorems
@@ -13,158 +13,169 @@ import PV.Unique
 namespace PV.Rename
 open Finsupp Filter MvPowerSeries
 
-variable {σ τ : Type*} (f : σ → τ) [TendstoCofinite f]
+variable {σ τ : Type*}
+
+/-! ### a map of multi-orders with finite fibres that is additive and reflects zero -/
+
+section General
+variable (g : (σ →₀ ℕ) → (τ →₀ ℕ)) [TendstoCofinite g]
 
 section Semiring
 variable {R : Type*} [Semiring R]
 
-/-- the fibre of a multi-order under `mapDomain f` (finite) -/
-noncomputable def fibre (x : τ →₀ ℕ) : Finset (σ →₀ ℕ) :=
-  (TendstoCofinite.finite_preimage_singleton (Finsupp.mapDomain f) x).toFinset
+/-- push a series forward along a map of the multi-orders: the coefficient of `x` is the sum of the coefficients over the (finite) fibre of `x` -/
+noncomputable def pushFun : MvPowerSeries σ R → MvPowerSeries τ R := TendstoCofinite.mapDomain g
 
-theorem mem_fibre {x : τ →₀ ℕ} {n : σ →₀ ℕ} : n ∈ fibre f x ↔ Finsupp.mapDomain f n = x := by
+/-- the fibre of a multi-order (finite) -/
+noncomputable def fibre (x : τ →₀ ℕ) : Finset (σ →₀ ℕ) :=
+  (TendstoCofinite.finite_preimage_singleton g x).toFinset
+
+theorem mem_fibre {x : τ →₀ ℕ} {n : σ →₀ ℕ} : n ∈ fibre g x ↔ g n = x := by
   simp [fibre]
 
-theorem coeff_renameFun (p : MvPowerSeries σ R) (x : τ →₀ ℕ) :
-    coeff x (renameFun f p) = (fibre f x).sum (fun n => coeff n p) := rfl
+theorem coeff_pushFun (p : MvPowerSeries σ R) (x : τ →₀ ℕ) :
+    coeff x (pushFun g p) = (fibre g x).sum (fun n => coeff n p) := rfl
 
 private theorem aux [DecidableEq σ] (x : τ →₀ ℕ) :
-    {p : (σ →₀ ℕ) × (σ →₀ ℕ) × (σ →₀ ℕ) | (p.1).mapDomain f = x ∧ p.2 ∈ Finset.antidiagonal p.1}.Finite := by
+    {p : (σ →₀ ℕ) × (σ →₀ ℕ) × (σ →₀ ℕ) | g p.1 = x ∧ p.2 ∈ Finset.antidiagonal p.1}.Finite := by
   apply Set.Finite.subset
-    (s := ↑((fibre f x).sup (fun y ↦ Finset.product {y} (Finset.antidiagonal y))))
+    (s := ↑((fibre g x).sup (fun y ↦ Finset.product {y} (Finset.antidiagonal y))))
   · exact Finset.finite_toSet ..
   · intro; simp [mem_fibre]
     grind
 
 private theorem aux' [DecidableEq τ] (x : τ →₀ ℕ) :
     {p : ((τ →₀ ℕ) × (τ →₀ ℕ)) × (σ →₀ ℕ) × (σ →₀ ℕ) | p.1 ∈ Finset.antidiagonal x
-      ∧ p.2 ∈ (fibre f p.1.1) ×ˢ (fibre f p.1.2)}.Finite := by
+      ∧ p.2 ∈ (fibre g p.1.1) ×ˢ (fibre g p.1.2)}.Finite := by
   classical
   apply Set.Finite.subset (s := ↑((Finset.antidiagonal x).sup (fun q ↦ Finset.product {q}
-    ((fibre f q.1) ×ˢ (fibre f q.2)))))
+    ((fibre g q.1) ×ˢ (fibre g q.2)))))
   · exact Finset.finite_toSet ..
   · intro; simp
     grind
 
+variable (hadd : ∀ a b, g (a + b) = g a + g b)
+include hadd
+
 private theorem auxImage [DecidableEq σ] [DecidableEq τ] (x : τ →₀ ℕ) :
-    (aux' f x).toFinset.image (fun (_, b) ↦ (b.1 + b.2, b)) = (aux f x).toFinset := by
+    (aux' g x).toFinset.image (fun (_, b) ↦ (b.1 + b.2, b)) = (aux g x).toFinset := by
   ext ⟨_, _, _⟩
-  simp [mem_fibre]; grind [Finsupp.mapDomain_add]
+  simp [mem_fibre]; grind
 
 open Finset in
-theorem renameFun_mul (p q : MvPowerSeries σ R) :
-    renameFun f (p * q) = renameFun f p * renameFun f q := by
+theorem pushFun_mul (p q : MvPowerSeries σ R) :
+    pushFun g (p * q) = pushFun g p * pushFun g q := by
   classical
   ext x
-  simp only [coeff_renameFun, coeff_mul, sum_mul_sum, ← sum_product']
-  rw [← sum_finset_product' (aux f x).toFinset _ _ (by simp [mem_fibre]),
-    ← sum_finset_product' (aux' f x).toFinset _ _ (by simp),
-    ← auxImage f x, sum_image fun _ ↦ by simp [mem_fibre]; grind]
+  simp only [coeff_pushFun, coeff_mul, sum_mul_sum, ← sum_product']
+  rw [← sum_finset_product' (aux g x).toFinset _ _ (by simp [mem_fibre]),
+    ← sum_finset_product' (aux' g x).toFinset _ _ (by simp),
+    ← auxImage g hadd x, sum_image fun _ ↦ by simp [mem_fibre]; grind]
 
-omit [TendstoCofinite f] in
-theorem mapDomain_eq_zero {n : σ →₀ ℕ} (h : Finsupp.mapDomain f n = 0) : n = 0 := by
-  have hd : (Finsupp.mapDomain f n).degree = n.degree := Finsupp.degree_mapDomain f n
-  rw [h] at hd
-  exact (Finsupp.degree_eq_zero_iff n).mp (by simpa using hd.symm)
+omit hadd
+variable (hzero : ∀ n, g n = 0 ↔ n = 0)
+include hzero
 
-theorem renameFun_one : renameFun f (1 : MvPowerSeries σ R) = 1 := by
+theorem pushFun_one : pushFun g (1 : MvPowerSeries σ R) = 1 := by
   classical
   ext x
-  rw [coeff_renameFun, coeff_one]
+  rw [coeff_pushFun, coeff_one]
   by_cases hx : x = 0
   · subst hx
     rw [if_pos rfl, Finset.sum_eq_single 0]
     · simp
     · intro n hn h0
       rw [mem_fibre] at hn
-      exact absurd (mapDomain_eq_zero f hn) h0
-    · intro h; exact absurd ((mem_fibre f).mpr Finsupp.mapDomain_zero) h
+      exact absurd ((hzero n).mp hn) h0
+    · intro h; exact absurd ((mem_fibre g).mpr ((hzero 0).mpr rfl)) h
   · rw [if_neg hx]
     apply Finset.sum_eq_zero
     intro n hn
     rw [mem_fibre] at hn
     rw [coeff_one, if_neg]
     rintro rfl
-    exact hx (by rw [← hn, Finsupp.mapDomain_zero])
+    exact hx (by rw [← hn]; exact (hzero 0).mpr rfl)
 
-/-- renaming of the perturbation parameters as a ring homomorphism, for any coefficient semiring -/
-noncomputable def renameHom : MvPowerSeries σ R →+* MvPowerSeries τ R where
-  toFun := renameFun f
-  map_one' := renameFun_one f
-  map_mul' := renameFun_mul f
-  map_zero' := by ext; simp [coeff_renameFun]
-  map_add' _ _ := by ext; simp [coeff_renameFun, Finset.sum_add_distrib]
+include hadd
 
-theorem coeff_renameHom (p : MvPowerSeries σ R) (x : τ →₀ ℕ) :
-    coeff x (renameHom f p) = (fibre f x).sum (fun n => coeff n p) := rfl
+/-- the push-forward as a ring homomorphism, for any coefficient semiring -/
+noncomputable def pushHom : MvPowerSeries σ R →+* MvPowerSeries τ R where
+  toFun := pushFun g
+  map_one' := pushFun_one g hzero
+  map_mul' := pushFun_mul g hadd
+  map_zero' := by ext; simp [coeff_pushFun]
+  map_add' _ _ := by ext; simp [coeff_pushFun, Finset.sum_add_distrib]
+
+theorem coeff_pushHom (p : MvPowerSeries σ R) (x : τ →₀ ℕ) :
+    coeff x (pushHom g hadd hzero p) = (fibre g x).sum (fun n => coeff n p) := rfl
 
 end Semiring
-
 
 section Law
 open PV PV.Model Filtered Blocks _root_.PV.Part CoeffBlocks
 variable {M : Type*} [Ring M] [StarRing M] [Algebra ℚ M] [StarModule ℚ M] [CoeffBlocks M]
+variable (hadd : ∀ a b, g (a + b) = g a + g b) (hzero : ∀ n, g n = 0 ↔ n = 0)
 
 attribute [local instance] Classical.propDecidable
 
-/-- C13 (merge / permute / add a parameter), concrete model: if the Hamiltonian over the parameters `τ` is the renaming along `f : σ → τ` of the Hamiltonian over `σ`,
-    every order `m` of `U`, `H_tilde`, `U†` is the sum of the orders `n` of the original outputs with `mapDomain f n = m`. -/
-theorem rename_law (c0 : CoeffUnperturbed M)
+/-- general law: if the Hamiltonian over the parameters `τ` is the push-forward of the Hamiltonian over `σ`, every order `m` of `U`, `H_tilde`, `U†` is the sum of the
+    orders `n` of the original outputs with `g n = m` -/
+theorem push_law (c0 : CoeffUnperturbed M)
     (gap : ∀ x : M, Q kc x + Q kn x = 0 → c0.H0 * x - x * c0.H0 = 0 → x = 0)
-    (e : MainEqs (MvPowerSeries σ M) (lift c0)) (e' : MainEqs (MvPowerSeries τ M) (lift c0)) (hH : e'.H = renameHom f e.H) (m : τ →₀ ℕ) :
-    coeff m e'.U = (fibre f m).sum (fun n => coeff n e.U) ∧ coeff m e'.H_tilde = (fibre f m).sum (fun n => coeff n e.H_tilde)
-      ∧ coeff m e'.Ud = (fibre f m).sum (fun n => coeff n e.Ud) := by
+    (e : MainEqs (MvPowerSeries σ M) (lift c0)) (e' : MainEqs (MvPowerSeries τ M) (lift c0)) (hH : e'.H = pushHom g hadd hzero e.H) (m : τ →₀ ℕ) :
+    coeff m e'.U = (fibre g m).sum (fun n => coeff n e.U) ∧ coeff m e'.H_tilde = (fibre g m).sum (fun n => coeff n e.H_tilde)
+      ∧ coeff m e'.Ud = (fibre g m).sum (fun n => coeff n e.Ud) := by
   have hg : Gapped (lift (σ := τ) c0).H0 := by
     intro k v hv hs hc
     exact gapped_lift (σ := τ) c0.toCoeffUnperturbedNH gap k v hv hs hc
-  have h := natural (renameHom (R := M) f)
+  have h := natural (pushHom (R := M) g hadd hzero)
     (by
       intro a; ext x
-      rw [coeff_renameHom, coeff_star, coeff_renameHom, star_sum]
+      rw [coeff_pushHom, coeff_star, coeff_pushHom, star_sum]
       rfl)
     (by
       intro a; ext x
-      show coeff x (renameHom f (P kc a + P kn a)) = coeff x (P kc (renameHom f a) + P kn (renameHom f a))
-      rw [coeff_renameHom, map_add, coeff_P, coeff_P, coeff_renameHom, map_sum, map_sum, ← Finset.sum_add_distrib]
+      show coeff x (pushHom g hadd hzero (P kc a + P kn a)) = coeff x (P kc (pushHom g hadd hzero a) + P kn (pushHom g hadd hzero a))
+      rw [coeff_pushHom, map_add, coeff_P, coeff_P, coeff_pushHom, map_sum, map_sum, ← Finset.sum_add_distrib]
       apply Finset.sum_congr rfl
       intro n _
       rw [map_add, coeff_P, coeff_P])
     (by
       intro a ha x hx
-      rw [coeff_renameHom]
+      rw [coeff_pushHom]
       apply Finset.sum_eq_zero
       intro n hn
       apply ha n
       rw [mem_fibre] at hn
-      rw [← Finsupp.degree_mapDomain f n, hn]
-      exact hx)
+      have hx0 : x = 0 := (Finsupp.degree_eq_zero_iff x).mp (by omega)
+      have hn0 : n = 0 := (hzero n).mp (by rw [hn, hx0])
+      rw [hn0]
+      simp)
     hg e e' hH
   refine ⟨?_, ?_, ?_⟩
-  · rw [h.1, coeff_renameHom]
-  · rw [h.2.1, coeff_renameHom]
-  · rw [h.2.2, coeff_renameHom]
+  · rw [h.1, coeff_pushHom]
+  · rw [h.2.1, coeff_pushHom]
+  · rw [h.2.2, coeff_pushHom]
 
-/-- injective renaming (permutation of the parameters, or adjoining parameters that do not occur): order `mapDomain f n` of the new outputs is order `n` of the old ones,
-    and orders outside the range of `mapDomain f` vanish -/
-theorem rename_law_injective (hf : Function.Injective f) (c0 : CoeffUnperturbed M)
+/-- injective case: order `g n` of the new outputs is order `n` of the old ones, and orders outside the range vanish -/
+theorem push_law_injective (hinj : Function.Injective g) (c0 : CoeffUnperturbed M)
     (gap : ∀ x : M, Q kc x + Q kn x = 0 → c0.H0 * x - x * c0.H0 = 0 → x = 0)
-    (e : MainEqs (MvPowerSeries σ M) (lift c0)) (e' : MainEqs (MvPowerSeries τ M) (lift c0)) (hH : e'.H = renameHom f e.H) :
-    (∀ n : σ →₀ ℕ, coeff (Finsupp.mapDomain f n) e'.U = coeff n e.U ∧ coeff (Finsupp.mapDomain f n) e'.H_tilde = coeff n e.H_tilde
-        ∧ coeff (Finsupp.mapDomain f n) e'.Ud = coeff n e.Ud)
-      ∧ ∀ m : τ →₀ ℕ, (∀ n : σ →₀ ℕ, Finsupp.mapDomain f n ≠ m) → coeff m e'.U = 0 ∧ coeff m e'.H_tilde = 0 ∧ coeff m e'.Ud = 0 := by
-  have hfib : ∀ n : σ →₀ ℕ, fibre f (Finsupp.mapDomain f n) = {n} := by
+    (e : MainEqs (MvPowerSeries σ M) (lift c0)) (e' : MainEqs (MvPowerSeries τ M) (lift c0)) (hH : e'.H = pushHom g hadd hzero e.H) :
+    (∀ n : σ →₀ ℕ, coeff (g n) e'.U = coeff n e.U ∧ coeff (g n) e'.H_tilde = coeff n e.H_tilde ∧ coeff (g n) e'.Ud = coeff n e.Ud)
+      ∧ ∀ m : τ →₀ ℕ, (∀ n : σ →₀ ℕ, g n ≠ m) → coeff m e'.U = 0 ∧ coeff m e'.H_tilde = 0 ∧ coeff m e'.Ud = 0 := by
+  have hfib : ∀ n : σ →₀ ℕ, fibre g (g n) = {n} := by
     intro n
     ext k
     rw [mem_fibre, Finset.mem_singleton]
-    exact ⟨fun h => Finsupp.mapDomain_injective hf h, fun h => by rw [h]⟩
+    exact ⟨fun h => hinj h, fun h => by rw [h]⟩
   constructor
   · intro n
-    have h := rename_law f c0 gap e e' hH (Finsupp.mapDomain f n)
+    have h := push_law g hadd hzero c0 gap e e' hH (g n)
     rw [hfib n, Finset.sum_singleton, Finset.sum_singleton, Finset.sum_singleton] at h
     exact h
   · intro m hm
-    have h := rename_law f c0 gap e e' hH m
-    have hempty : fibre f m = ∅ := by
+    have h := push_law g hadd hzero c0 gap e e' hH m
+    have hempty : fibre g m = ∅ := by
       ext k
       rw [mem_fibre]
       simp only [Finset.notMem_empty, iff_false]
@@ -173,5 +184,80 @@ theorem rename_law_injective (hf : Function.Injective f) (c0 : CoeffUnperturbed 
     exact h
 
 end Law
+end General
+
+/-! ### renaming of the parameters: `g = mapDomain f` -/
+
+section Renaming
+variable (f : σ → τ)
+
+theorem mapDomain_eq_zero_iff (n : σ →₀ ℕ) : Finsupp.mapDomain f n = 0 ↔ n = 0 := by
+  constructor
+  · intro h
+    have hd : (Finsupp.mapDomain f n).degree = n.degree := Finsupp.degree_mapDomain f n
+    rw [h] at hd
+    exact (Finsupp.degree_eq_zero_iff n).mp (by simpa using hd.symm)
+  · rintro rfl; exact Finsupp.mapDomain_zero
+
+variable [TendstoCofinite f] {R : Type*} [Semiring R]
+
+/-- renaming of the perturbation parameters as a ring homomorphism, for any coefficient semiring -/
+noncomputable def renameHom : MvPowerSeries σ R →+* MvPowerSeries τ R :=
+  pushHom (Finsupp.mapDomain f) (fun _ _ => Finsupp.mapDomain_add) (mapDomain_eq_zero_iff f)
+
+open PV PV.Model Filtered Blocks _root_.PV.Part CoeffBlocks in
+/-- C13 (merge / permute / add a parameter), concrete model -/
+theorem rename_law {M : Type*} [Ring M] [StarRing M] [Algebra ℚ M] [StarModule ℚ M] [CoeffBlocks M] (c0 : CoeffUnperturbed M)
+    (gap : ∀ x : M, Q kc x + Q kn x = 0 → c0.H0 * x - x * c0.H0 = 0 → x = 0)
+    (e : MainEqs (MvPowerSeries σ M) (lift c0)) (e' : MainEqs (MvPowerSeries τ M) (lift c0)) (hH : e'.H = renameHom f e.H) (m : τ →₀ ℕ) :
+    coeff m e'.U = (fibre (Finsupp.mapDomain f) m).sum (fun n => coeff n e.U)
+      ∧ coeff m e'.H_tilde = (fibre (Finsupp.mapDomain f) m).sum (fun n => coeff n e.H_tilde)
+      ∧ coeff m e'.Ud = (fibre (Finsupp.mapDomain f) m).sum (fun n => coeff n e.Ud) :=
+  push_law (Finsupp.mapDomain f) _ _ c0 gap e e' hH m
+
+open PV PV.Model Filtered Blocks _root_.PV.Part CoeffBlocks in
+/-- injective renaming (permutation of the parameters, or adjoining parameters that do not occur) only relabels orders -/
+theorem rename_law_injective {M : Type*} [Ring M] [StarRing M] [Algebra ℚ M] [StarModule ℚ M] [CoeffBlocks M] (hf : Function.Injective f) (c0 : CoeffUnperturbed M)
+    (gap : ∀ x : M, Q kc x + Q kn x = 0 → c0.H0 * x - x * c0.H0 = 0 → x = 0)
+    (e : MainEqs (MvPowerSeries σ M) (lift c0)) (e' : MainEqs (MvPowerSeries τ M) (lift c0)) (hH : e'.H = renameHom f e.H) :
+    (∀ n : σ →₀ ℕ, coeff (Finsupp.mapDomain f n) e'.U = coeff n e.U ∧ coeff (Finsupp.mapDomain f n) e'.H_tilde = coeff n e.H_tilde
+        ∧ coeff (Finsupp.mapDomain f n) e'.Ud = coeff n e.Ud)
+      ∧ ∀ m : τ →₀ ℕ, (∀ n : σ →₀ ℕ, Finsupp.mapDomain f n ≠ m) → coeff m e'.U = 0 ∧ coeff m e'.H_tilde = 0 ∧ coeff m e'.Ud = 0 :=
+  push_law_injective (Finsupp.mapDomain f) _ _ (Finsupp.mapDomain_injective hf) c0 gap e e' hH
+
+end Renaming
+
+/-! ### substitution `λ_k → λ_k ^ p`: `g n = p • n` -/
+
+section Power
+variable (p : ℕ) (hp : p ≠ 0)
+include hp
+
+theorem smul_injective' : Function.Injective (fun n : σ →₀ ℕ => p • n) := by
+  intro a b h
+  ext k
+  have := congrArg (fun v : σ →₀ ℕ => v k) h
+  simp only [Finsupp.smul_apply, smul_eq_mul] at this
+  exact Nat.eq_of_mul_eq_mul_left (Nat.pos_of_ne_zero hp) this
+
+theorem smul_eq_zero_iff' (n : σ →₀ ℕ) : p • n = 0 ↔ n = 0 := by
+  constructor
+  · intro h
+    exact smul_injective' (σ := σ) p hp (by simpa using h)
+  · rintro rfl; simp
+
+open PV PV.Model Filtered Blocks _root_.PV.Part CoeffBlocks in
+/-- C13 (substitution `λ → λ^p`), concrete model: order `p • n` of the outputs for the substituted Hamiltonian is order `n` of the original outputs, all other orders vanish -/
+theorem power_law {M : Type*} [Ring M] [StarRing M] [Algebra ℚ M] [StarModule ℚ M] [CoeffBlocks M] (c0 : CoeffUnperturbed M)
+    (gap : ∀ x : M, Q kc x + Q kn x = 0 → c0.H0 * x - x * c0.H0 = 0 → x = 0)
+    (e e' : MainEqs (MvPowerSeries σ M) (lift c0))
+    (hH : haveI := tendstoCofinite_of_injective (smul_injective' (σ := σ) p hp)
+      e'.H = pushHom (fun n : σ →₀ ℕ => p • n) (fun a b => smul_add p a b) (smul_eq_zero_iff' p hp) e.H) :
+    (∀ n : σ →₀ ℕ, coeff (p • n) e'.U = coeff n e.U ∧ coeff (p • n) e'.H_tilde = coeff n e.H_tilde ∧ coeff (p • n) e'.Ud = coeff n e.Ud)
+      ∧ ∀ m : σ →₀ ℕ, (∀ n : σ →₀ ℕ, p • n ≠ m) → coeff m e'.U = 0 ∧ coeff m e'.H_tilde = 0 ∧ coeff m e'.Ud = 0 := by
+  have := tendstoCofinite_of_injective (smul_injective' (σ := σ) p hp)
+  exact push_law_injective (fun n : σ →₀ ℕ => p • n) _ _ (smul_injective' p hp) c0 gap e e' hH
+
+end Power
 
 end PV.Rename
